@@ -2,6 +2,8 @@
 
 package kcp
 
+import "time"
+
 // VerifE2ECore returns the protocol core of a session (use under VerifE2ELocked).
 func VerifE2ECore(s *UDPSession) *KCP { return s.kcp }
 
@@ -12,14 +14,20 @@ func VerifE2ELocked(s *UDPSession, f func()) {
 	f()
 }
 
-// VerifE2EPump does what the scheduled update callback does, minus re-scheduling itself.
+// VerifE2EPump runs the session's REAL scheduled update callback once and reports the delay it asked
+// for when it re-submitted itself (0 if it did not).  The harness keeps SystemTimedSched inert (the zero
+// value: Put only appends), so the re-submission is taken back out here; under testing/synctest the
+// clock does not move while the callback runs, so the delay is exactly the interval flush returned.
 func VerifE2EPump(s *UDPSession) (interval uint32) {
-	s.mu.Lock()
-	interval = s.kcp.flush(IKCP_FLUSH_FULL)
-	if s.kcp.WaitSnd() < int(s.kcp.snd_wnd) {
-		s.notifyWriteEvent()
+	sch := SystemTimedSched
+	VerifSchedTake(sch) // earlier re-submissions: the harness drives the updates by hand
+	now := time.Now()
+	s.update()
+	if _, at := VerifSchedTake(sch); len(at) > 0 {
+		if d := at[len(at)-1].Sub(now); d > 0 {
+			interval = uint32(d / time.Millisecond)
+		}
 	}
-	s.mu.Unlock()
 	return
 }
 
